@@ -27,6 +27,8 @@ const (
 	kError
 	kIface // net.Interface / *net.Interface (Go.NetInterface of the Prelude)
 	kFunc  // a function value (always monadic: its result is `R T`)
+	kMap   // map[string]T: an association list (Go.Map T); iteration order is never observed by translated code
+	kHeapPtr // *clients.client inside package clients: nil or an index into the heap of records (Go.Ptr)
 	kRef   // *clients.client seen from outside its package: an opaque record reference (Go.ClientRef snapshot or nil)
 	kOther
 )
@@ -42,6 +44,9 @@ func (x *X) kindOf(t types.Type) kind {
 		return kInt // nanoseconds since the Unix epoch (monotonic reading ignored; trusted)
 	}
 	if t.String() == "*"+modPath+"lib/server/ipdb/clients.client" {
+		if x.curPkg == modPath+"lib/server/ipdb/clients" {
+			return kHeapPtr
+		}
 		return kRef
 	}
 	switch u := t.Underlying().(type) {
@@ -72,6 +77,15 @@ func (x *X) kindOf(t types.Type) kind {
 	case *types.Array:
 		if b, ok := u.Elem().Underlying().(*types.Basic); ok && b.Kind() == types.Uint8 {
 			return kBytes
+		}
+		if ek := x.kindOf(u.Elem()); ek == kHeapPtr { // [N]*client: a list of that length
+			return kList
+		}
+	case *types.Map:
+		if b, ok := u.Key().Underlying().(*types.Basic); ok && b.Kind() == types.String {
+			if ek := x.kindOf(u.Elem()); ek != kOther && ek != kPtrStruct && ek != kFunc && ek != kRef {
+				return kMap
+			}
 		}
 	case *types.Struct:
 		if inModule(t) {
@@ -148,7 +162,11 @@ func (x *X) leanType(t types.Type, result bool) string {
 		}
 		return "(" + strings.Join(append(parts, m+tupleType(rs)), " → ") + ")"
 	case kList:
-		return "(List " + x.leanType(t.Underlying().(*types.Slice).Elem(), false) + ")"
+		return "(List " + x.leanType(elemOf(t), false) + ")"
+	case kHeapPtr:
+		return "Go.Ptr"
+	case kMap:
+		return "(Go.Map " + x.leanType(t.Underlying().(*types.Map).Elem(), false) + ")"
 	case kStruct:
 		return x.structName(t)
 	case kPtrStruct:
@@ -176,6 +194,17 @@ func effectfulCallback(t types.Type) bool {
 	return false
 }
 
+// elemOf: element type of a slice or array.
+func elemOf(t types.Type) types.Type {
+	switch u := t.Underlying().(type) {
+	case *types.Slice:
+		return u.Elem()
+	case *types.Array:
+		return u.Elem()
+	}
+	return nil
+}
+
 func (x *X) structName(t types.Type) string {
 	n, ok := t.(*types.Named)
 	if !ok {
@@ -190,6 +219,9 @@ func (x *X) needStruct(n *types.Named) {
 		return
 	}
 	x.structs[n] = true
+	save := x.curPkg
+	x.curPkg = n.Obj().Pkg().Path()
+	defer func() { x.curPkg = save }()
 	st := n.Underlying().(*types.Struct)
 	for i := 0; i < st.NumFields(); i++ { // dependencies first
 		if x.fieldKind(st.Field(i).Type()) != kOther {
@@ -218,8 +250,13 @@ func (x *X) zero(t types.Type) string {
 		return "Go.NetInterface.zero"
 	case kRef:
 		return "(none : Option Go.ClientRef)"
-	case kList:
+	case kList, kMap:
+		if a, ok := t.Underlying().(*types.Array); ok {
+			return fmt.Sprintf("(List.replicate %d %s)", a.Len(), x.zero(a.Elem()))
+		}
 		return "([] : " + x.leanType(t, false) + ")"
+	case kHeapPtr:
+		return "(none : Go.Ptr)"
 	case kStruct:
 		return x.structName(t) + ".zero"
 	case kPtrStruct:
@@ -230,6 +267,7 @@ func (x *X) zero(t types.Type) string {
 }
 
 func (x *X) structDef(n *types.Named) string {
+	x.curPkg = n.Obj().Pkg().Path()
 	st := n.Underlying().(*types.Struct)
 	name := n.Obj().Pkg().Name() + "." + n.Obj().Name()
 	var sb strings.Builder
